@@ -125,6 +125,23 @@ def gen_case(rng, for_log=False):
         case['interact'] = True
         case['logs'] = rng.choice([['logfile'], ['logfile_read'], ['logfile_send'],
                                    ['logfile', 'logfile_read', 'logfile_send'], ['logfile_read', 'logfile_send']])
+        if for_log == 'split' or rng.random() < 0.3:
+            # unicode mode, and the child's output is cut inside characters with keystrokes read in between (and
+            # typed characters cut with output in between): each direction is a text stream of its own
+            case.update({'enc': 'utf-8', 'filters': {'input': None, 'output': None}, 'escape': '\x1d', 'end': 'exit',
+                         'dead_first': None, 'pending': rng.choice(['', 'PEND\xe9ing'])})
+            o = 'A\xe9B\u20acZ\u65e5!'.encode('utf-8')
+            t = 'x\xfcy\u20acz'.encode('utf-8')
+            oc = sorted(rng.sample(range(1, len(o)), 3))
+            tc = sorted(rng.sample(range(1, len(t)), 2))
+            op = [o[a:b] for a, b in zip([0] + oc, oc + [len(o)])]
+            tp = [t[a:b] for a, b in zip([0] + tc, tc + [len(t)])]
+            steps = []
+            for k in range(4):
+                steps.append(['out', op[k].hex()])
+                if k < 3:
+                    steps.append(['type', tp[k].hex()])
+            case['steps'] = steps
     return case
 
 
